@@ -267,8 +267,8 @@ def build_single(torch, cfg, N, T, K, k=0, other_call=None):
         add_vec("call", v)
         b.kw = dict(noise=v.clone())
         b.kw_vec = b.kw
-        if other_call is not None:
-            add_vec("callOther", other_call)
+    if other_call is not None and cls != "Dir":
+        add_vec("callOther", other_call)
     b.lik = lik
     return b
 
@@ -629,19 +629,21 @@ def run_list_cell(torch, cell, N, T, K, seed):
     noise = [mag_call(torch, (), n, k) for k in range(2)]
     builts, dists = [], []
     for k, kind in enumerate(cfg["members"]):
-        mcfg = dict(cls="G" if kind == "G" else "F", op=op, lan=kind == "FL", call="kw" if cfg["noise"] == "list" else "none", nmatch=True,
+        given = cfg["noise"] == "list" or (cfg["noise"] == "list_vN" and k == 0) or (cfg["noise"] == "list_Nv" and k == 1)
+        mcfg = dict(cls="G" if kind == "G" else "F", op=op, lan=kind == "FL", call="kw" if given else "none", nmatch=True,
                     cb=False, fb=False, params="none", glob=False, task=False, rank=0, inter=True, ae="default", nan=False, lb=[], ib=[])
-        builts.append(build_single(torch, mcfg, N, T, K, k=k, other_call=noise[1 - k] if cfg["noise"] == "list" else None))
+        builts.append(build_single(torch, mcfg, N, T, K, k=k, other_call=noise[1 - k] if cfg["noise"] != "none" else None))
         dists.append(make_dist(torch, gen, (), n, 0, True))
     ll = LikelihoodList(*[b.lik for b in builts])
     xs = [torch.randn(n, 2, generator=gen, dtype=torch.float64) for _ in range(2)]
-    kwargs = dict(noise=[v.clone() for v in noise]) if cfg["noise"] == "list" else {}
+    entry = {"list": (True, True), "list_vN": (True, False), "list_Nv": (False, True), "list_NN": (False, False)}.get(cfg["noise"])
+    kwargs = dict(noise=[v.clone() if g else None for v, g in zip(noise, entry)]) if entry else {}
     desc = "LikelihoodList(%s).%s(%s%s)" % (", ".join(cfg["members"]), OPNAME[op],
                                             "d0, d1" if cfg["argform"] == "bare" else ("(d0, x0), (d1, x1)" if op == "call" else "(y0, d0), (y1, d1)"),
-                                            ", noise=[v0, v1]" if kwargs else "")
+                                            (", noise=[%s]" % ", ".join("v%d" % i if g else "None" for i, g in enumerate(entry))) if kwargs else "")
     key = dict(cfg=cfg, N=N)
     res = dict(key=key, ok=True, nontrivial=True, sample=None)
-    base = "C12/LikelihoodList/%s/%s" % ("noise-kwarg" if kwargs else "plain", OPNAME[op])
+    base = "C12/LikelihoodList/%s/%s" % (("noise-kwarg" if cfg["noise"] == "list" else "noise-kwarg-" + cfg["noise"][5:]) if kwargs else "plain", OPNAME[op])
     case = dict(cell=cell, N=N, T=T, K=K, seed=seed)
 
     def fail(kind, detail):
@@ -739,7 +741,7 @@ def _worker(item):
             r.pop("drift", None)
         else:
             c = cell["cfg"]
-            r["driftkey"] = "%s/%s/%s" % (CLASSNAME[c["cls"]], switches(c) if c["cls"] != "List" else ("noise-kwarg" if c["noise"] == "list" else "plain"), OPNAME[c["op"]])
+            r["driftkey"] = "%s/%s/%s" % (CLASSNAME[c["cls"]], switches(c) if c["cls"] != "List" else ("noise-kwarg" if c["noise"] != "none" else "plain"), OPNAME[c["op"]])
         r["predicted"] = cell["code"] != cell["exp"]
         out.append(r)
     return out
